@@ -1,6 +1,7 @@
 package props
 
 import (
+	math2 "math"
 	"fmt"
 	"strconv"
 	"strings"
@@ -28,13 +29,14 @@ type pendingDeposit struct {
 }
 
 type c06Model struct {
+	base     uint64 // sequences base+1, base+2, ... (0 on a chain started from scratch)
 	next     uint64
 	credited map[string]int64 // recipient → sum
 	events   []uint64         // sequences seen in finalize_token_deposit events, in order
 }
 
 func (m *c06Model) clone() *c06Model {
-	n := &c06Model{next: m.next, credited: map[string]int64{}, events: append([]uint64(nil), m.events...)}
+	n := &c06Model{base: m.base, next: m.next, credited: map[string]int64{}, events: append([]uint64(nil), m.events...)}
 	for k, v := range m.credited {
 		n.credited[k] = v
 	}
@@ -119,13 +121,13 @@ func (c *c06) invariants(e *L2Env, m *c06Model, tr []string) {
 		got := e.L2.BK.GetBalance(e.L2.Ctx, addr, parts[1]).Amount
 		run.Check("C06.credited_exactly_once", got.Equal(math.NewInt(want)), "c06.balance", tr, "recipient %s holds %s of %s, expected %d (sum of its credited deposits)", short(parts[0]), got, short(parts[1]), want)
 	}
-	good := uint64(len(m.events))+1 == m.next
+	good := m.base+uint64(len(m.events))+1 == m.next
 	for i, s := range m.events {
-		if s != uint64(i)+1 {
+		if s != m.base+uint64(i)+1 {
 			good = false
 		}
 	}
-	run.Check("C06.events_once_in_order", good, "c06.events", tr, "finalize_token_deposit events %v are not exactly 1..%d in order", m.events, m.next-1)
+	run.Check("C06.events_once_in_order", good, "c06.events", tr, "finalize_token_deposit events %v are not exactly %d..%d in order", m.events, m.base+1, m.next-1)
 }
 
 func (c *c06) dfs(e *L2Env, m *c06Model, depth int, path []string, memo bool) {
@@ -214,7 +216,12 @@ func checkC06(run *mon.Run, rng *mon.Rand, thorough bool) {
 }
 
 func c06Random(run *mon.Run, rng *mon.Rand, length int, sample bool) {
-	e := newL2Env(L2EnvOpts{})
+	var base uint64
+	if rng.Chance(25) {
+		base = 1<<63 - 4 // the counter crosses 2^63 during the schedule (a chain imported after that many deposits)
+	}
+	noInfo := rng.Chance(30) // the bridge info is registered only in the middle of the schedule
+	e := newL2Env(L2EnvOpts{NextL1Sequence: base + 1, NoBridgeInfo: noInfo})
 	e.L2.Speculate = rng.Bool() // half of the schedules: every transaction runs first on a throw-away branch (CheckTx)
 	if rng.Bool() {
 		e.EnableShadow(rng.U64()) // and other transactions run on discarded branches in between
@@ -229,13 +236,16 @@ func c06Random(run *mon.Run, rng *mon.Rand, length int, sample bool) {
 	c := &c06{run: run, stranger: sim.NewAccount("stranger1")}
 	nDeps := length/3 + 10
 	c.deps = mkDeposits(e, nDeps)
+	for i := range c.deps {
+		c.deps[i].seq += base
+	}
 	// some deposits go to unusable recipients (refund path) to interleave the L2 sequence
 	for i := range c.deps {
 		if rng.Chance(10) {
 			c.deps[i].toStr = "not-an-address"
 		}
 	}
-	m := &c06Model{next: 1, credited: map[string]int64{}}
+	m := &c06Model{base: base, next: base + 1, credited: map[string]int64{}}
 	execs := map[string]bool{e.Executors[0].String(): true, e.Executors[1].String(): true}
 	pool := []sim.Account{e.Executors[0], e.Executors[1], sim.NewAccount("executorC"), sim.NewAccount("executorD"), c.stranger}
 	var log []string
@@ -243,30 +253,39 @@ func c06Random(run *mon.Run, rng *mon.Rand, length int, sample bool) {
 		switch x := rng.Intn(100); {
 		case x < 70:
 			var seq uint64
-			switch rng.Intn(6) {
+			nx := m.next - base // 1-based position of the next expected deposit in c.deps
+			switch rng.Intn(7) {
 			case 0, 1:
 				seq = m.next
 			case 2:
-				if m.next > 1 {
-					seq = 1 + uint64(rng.Intn(int(m.next-1))) // replay of an old one
+				if nx > 1 {
+					seq = base + 1 + uint64(rng.Intn(int(nx-1))) // replay of an old one
 				} else {
 					seq = m.next
 				}
 			case 3:
 				seq = m.next + 1 + uint64(rng.Intn(3)) // gap
 			case 4:
-				if m.next > 1 {
+				if nx > 1 {
 					seq = m.next - 1 // immediate duplicate
 				} else {
 					seq = m.next
 				}
+			case 5:
+				// far away from the expected sequence: 2^63 ahead, the largest value, the smallest value
+				far := c.deps[0]
+				far.seq = mon.Pick(rng, []uint64{m.next + 1<<63, math2.MaxUint64, m.next + 1<<62, 1, base/2 + 1})
+				snd := mon.Pick(rng, pool)
+				log = append(log, fmt.Sprintf("deliver(seq=%d by=%s next=%d)", far.seq, snd.Name, m.next))
+				c.step(e, m, far, snd, execs[snd.String()], tail(log, 30))
+				continue
 			default:
 				seq = m.next
 			}
-			if int(seq) > len(c.deps) {
+			if int(seq-base) > len(c.deps) {
 				continue
 			}
-			d := c.deps[seq-1]
+			d := c.deps[seq-base-1]
 			snd := mon.Pick(rng, pool)
 			if d.toStr == "not-an-address" && seq == m.next && execs[snd.String()] {
 				// refund path: handled by the generic model except that nothing is credited
@@ -288,17 +307,18 @@ func c06Random(run *mon.Run, rng *mon.Rand, length int, sample bool) {
 			c.step(e, m, d, snd, execs[snd.String()], tail(log, 30))
 		case x < 78:
 			// multi-message transaction mixing stale and fresh deliveries
-			if int(m.next)+1 > len(c.deps) || m.next < 2 {
+			nx := m.next - base
+			if int(nx)+1 > len(c.deps) || nx < 2 {
 				continue
 			}
-			if c.deps[m.next-1].toStr == "not-an-address" || c.deps[m.next].toStr == "not-an-address" {
+			if c.deps[nx-1].toStr == "not-an-address" || c.deps[nx].toStr == "not-an-address" {
 				continue
 			}
 			ex := e.Executors[0]
 			if !execs[ex.String()] {
 				continue
 			}
-			stale, fresh, fresh2 := c.deps[m.next-2], c.deps[m.next-1], c.deps[m.next]
+			stale, fresh, fresh2 := c.deps[nx-2], c.deps[nx-1], c.deps[nx]
 			mk := func(d pendingDeposit) sdk.Msg {
 				return e.DepositMsg(ex, d.seq, d.from, d.toStr, d.denom, math.NewInt(d.amount), nil)
 			}
@@ -348,6 +368,18 @@ func c06Random(run *mon.Run, rng *mon.Rand, length int, sample bool) {
 				log = append(log, fmt.Sprintf("transfer %d -> %s", amt, res.Class))
 			}
 		default:
+			if noInfo && rng.Chance(40) {
+				// the bridge info is registered (for the first time, or again) by whoever is an executor now
+				for _, a := range pool {
+					if execs[a.String()] {
+						res := e.L2.Deliver(opchildtypes.NewMsgSetBridgeInfo(a.String(), e.BridgeInfo("", false)))
+						log = append(log, fmt.Sprintf("set_bridge_info by %s -> %s", a.Name, res.Class))
+						run.Check("C06.next_sequence_query", res.Class == sim.OK && e.NextL1Seq() == m.next, "c06.bridge_info_moved_sequence", tail(log, 30), "registering the bridge info -> %s %s; Query/NextL1Sequence=%d, model %d", res.Class, res.ErrString(), e.NextL1Seq(), m.next)
+						break
+					}
+				}
+				continue
+			}
 			e.L2.NextBlock(1e9)
 			log = append(log, "next block")
 		}
